@@ -41,7 +41,7 @@ def extract(root="/repo/tests"):
                 for gm in re.finditer(r"\bgoal\s*\{", body[pend:]):
                     gs = pend + gm.end() - 1
                     ge = _balanced(body, gs)
-                    goals.append(" ".join(body[gs + 1:ge - 1].split()))
+                    goals.append(" ".join("\n".join(l.split("//")[0] for l in body[gs + 1:ge - 1].splitlines()).split()))
                 # strip rust line comments inside the program
                 program = "\n".join(l.split("//")[0] for l in program.splitlines())
                 line = text.count("\n", 0, m.start()) + 1
